@@ -81,6 +81,7 @@ def main(tier, only=None):
         rep.obligation(out_c == 'known')
     if not only:
         insert_probes(rep)
+        null_storage_probes(rep)
         values_probes(rep)
         insert_mapping_probes(rep)
     rep.cov['functions_encoded'] = sorted(f for f in fns if 'array' in f or 'ops' in f)[:60] + ['static types: Binder + planner/rules/type_.rs through the driver (`plans`)']
@@ -282,3 +283,60 @@ def insert_probes(rep):
 def replay_cmd(path):
     print(json.dumps(json.load(open(path))['replay'], indent=1)[:6000])
     return 0
+
+
+def null_storage_probes(rep):
+    """"No value is silently replaced by another (e.g. NULL by 0)" on the storage side (column builders are async code
+    outside the solver engines): for every storable column type, a nullable column on the disk engine that receives NULLs
+    (explicit, omitted column, from a SELECT) between values returns them as NULL -- and the values as values -- exactly as
+    the memory engine does (concrete probe; the type list is the one of the C06 column probe)."""
+    import shutil
+    from vlib.common import scratch_dir
+    from . import c06p
+    T = {k: v for k, v in c06p.type_values().items() if 'not null' not in v[0]}
+    stmts, reads = [], []
+    for name, (decl, vals) in T.items():
+        t = 'n_' + name.replace('-', '_')
+        some = [v for v in vals if v is not None][:3]
+        stmts += ['create table %s(k int not null, v %s)' % (t, decl),
+                  'insert into %s values (1, NULL), (2, %s), (3, NULL), (4, %s)' % (t, some[0], some[1]),
+                  'insert into %s(k) values (5)' % t,
+                  'insert into %s select k + 10, v from %s' % (t, t),
+                  'insert into %s values (30, %s)' % (t, some[2 % len(some)])]
+        q = 'select k, v, v is null from %s order by k' % t
+        stmts.append(q)
+        reads.append((name, q))
+    res = {}
+    for eng in ('mem', 'disk'):
+        d = scratch_dir('c16n') if eng == 'disk' else None
+        inp = {'engine': eng, 'stmts': stmts}
+        if d:
+            inp.update(dir=d, block=4096, rowset=1 << 20)
+        out, rc, err = rl('sql', inp, timeout=300)
+        if d:
+            shutil.rmtree(d, ignore_errors=True)
+        res[eng] = {o['sql']: o for o in out if 'sql' in o}
+        if len(res[eng]) < len(set(stmts)):
+            rep.fail_inconclusive('NULL storage probe did not complete on %s: %s' % (eng, err[-200:]))
+            return
+    rep.cov['programs'] += 1
+    bad = 0
+    for name, q in reads:
+        a, b = res['mem'][q], res['disk'][q]
+        if not a.get('ok') or a.get('panicked'):
+            continue
+        exp_null = {'1', '3', '5', '11', '13', '15'}
+        ok_mem = all((r[1] is None) == (r[0] in exp_null) and r[2] == ('true' if r[0] in exp_null else 'false') for r in a['rows'])
+        same = b.get('ok') and not b.get('panicked') and b['rows'] == a['rows']
+        if ok_mem and same:
+            continue
+        bad += 1
+        eng = 'disk' if ok_mem else 'memory'
+        rows = b.get('rows') if ok_mem else a['rows']
+        wrong = [r for r in (rows or []) if (r[1] is None) != (r[0] in exp_null) or r[2] != ('true' if r[0] in exp_null else 'false')][:4]
+        what = 'a nullable %s column on the %s engine does not return what was stored: rows (k, v, v is null) %s (NULL was stored for k in 1, 3, 5, 11, 13, 15)' % (
+            T[name][0], eng, json.dumps(wrong or rows)[:240])
+        outc = rep.counterexample('stored-null:%s:%s' % (eng, name), what[:500], {'stmts': [s_ for s_ in stmts if 'n_' + name.replace('-', '_') in s_], 'memory': a.get('rows'), 'disk': b.get('rows')}, True)
+        rep.obligation(outc == 'known')
+    if not bad:
+        rep.obligation(True)
